@@ -115,6 +115,10 @@ func (m *Message) readHeader(r io.Reader, buf *bytes.Buffer) (cmd *dict.Command,
 func (m *Message) readBody(r io.Reader, buf *bytes.Buffer, cmd *dict.Command, stream uint) error {
 	var err error
 	var n int
+	if m.Header.MessageLength < HeaderLength {
+		return fmt.Errorf("invalid message length %d: shorter than the %d bytes of the header",
+			m.Header.MessageLength, HeaderLength)
+	}
 	b := readerBufferSlice(buf, int(m.Header.MessageLength-HeaderLength))
 	msr, isMulti := r.(MultistreamReader)
 	if isMulti {
